@@ -2,6 +2,7 @@ package checks
 
 import (
 	"fmt"
+	"sort"
 	"strings"
 	"time"
 
@@ -17,6 +18,7 @@ type typedPos struct {
 	allowed []string
 	top     bool // statement only legal at top level (function definitions)
 	onlyCalls bool
+	varOnly   bool // the position needs a variable: no call is acceptable
 }
 
 var allTypes = []string{"int", "bool", "string", "[]int", "[]bool", "[]string"}
@@ -34,6 +36,12 @@ func typedPositions() []typedPos {
 		{name: "equal-right-int", stmt: "x := vi == @@\nprint(x)", allowed: []string{"int"}},
 		{name: "equal-right-bool", stmt: "x := vb == @@\nprint(x)", allowed: []string{"bool"}},
 		{name: "notequal-right-string", stmt: "x := vs != @@\nprint(x)", allowed: []string{"string"}},
+		{name: "comparison-chain-right", stmt: "x := vi < vi2 == @@\nprint(x)", allowed: []string{"bool"}},
+		{name: "equality-chain-right", stmt: "x := vi == vi2 == @@\nprint(x)", allowed: []string{"bool"}},
+		{name: "string-equality-chain-right", stmt: "x := vs == vs != @@\nprint(x)", allowed: []string{"bool"}},
+		{name: "arith-chain-third", stmt: "x := vi + vi2 * @@\nprint(x)", allowed: []string{"int"}},
+		{name: "concat-chain-third", stmt: "x := vs + vs + @@\nprint(x)", allowed: []string{"string"}},
+		{name: "logic-chain-third", stmt: "x := vb || vb && @@\nprint(x)", allowed: []string{"bool"}},
 		{name: "and-left", stmt: "x := @@ && vb\nprint(x)", allowed: []string{"bool"}},
 		{name: "and-right", stmt: "x := vb && @@\nprint(x)", allowed: []string{"bool"}},
 		{name: "or-right", stmt: "x := vb || @@\nprint(x)", allowed: []string{"bool"}},
@@ -59,6 +67,9 @@ func typedPositions() []typedPos {
 		{name: "return-depth0", stmt: "func r() int {\n\treturn @@\n}\nprint(r())", allowed: []string{"int"}, top: true},
 		{name: "return-depth1", stmt: "func r() int {\n\tif vb {\n\t\treturn @@\n\t}\n\treturn 1\n}\nprint(r())", allowed: []string{"int"}, top: true},
 		{name: "return-depth2", stmt: "func r() string {\n\tfor vb {\n\t\tif vb {\n\t\t\treturn @@\n\t\t}\n\t}\n\treturn \"a\"\n}\nprint(r())", allowed: []string{"string"}, top: true},
+		{name: "return-first-of-two", stmt: "func r() (int, string) {\n\treturn @@, \"b\"\n}\na, b := r()\nprint(a, b)", allowed: []string{"int"}, top: true},
+		{name: "return-first-of-three", stmt: "func r() (string, int, bool) {\n\treturn @@, 1, true\n}\na, b, c := r()\nprint(a, b, c)", allowed: []string{"string"}, top: true},
+		{name: "return-middle-of-three", stmt: "func r() (string, []int, bool) {\n\treturn \"s\", @@, true\n}\na, b, c := r()\nprint(a, len(b), c)", allowed: []string{"[]int"}, top: true},
 		{name: "return-second", stmt: "func r() (int, bool) {\n\treturn 1, @@\n}\na, b := r()\nprint(a, b)", allowed: []string{"bool"}, top: true},
 		{name: "if-condition", stmt: "if @@ {\n\tprint(1)\n}", allowed: []string{"bool"}},
 		{name: "elseif-condition", stmt: "if vb {\n\tprint(1)\n} else if @@ {\n\tprint(2)\n}", allowed: []string{"bool"}},
@@ -84,20 +95,25 @@ func typedPositions() []typedPos {
 		{name: "write-path", stmt: "write(@@, vs)", allowed: []string{"string"}},
 		{name: "write-data", stmt: "write(vs, @@)", allowed: []string{"string"}},
 		{name: "write-append", stmt: "write(vs, vs, @@)", allowed: []string{"bool"}},
+		{name: "copy-destination", stmt: "x := copy(@@, vis)\nprint(x)", allowed: []string{"[]int"}, varOnly: true},
 		{name: "copy-source", stmt: "x := copy(vis, @@)\nprint(x)", allowed: []string{"[]int"}},
 		{name: "range-operand", stmt: "for i, e := range @@ {\n\tprint(i, e)\n}", allowed: []string{"string", "[]int", "[]bool", "[]string"}},
 		// arity and value-count positions
+		{name: "define-two-second-from-call", stmt: "p, q := 1, @@\nprint(p, q)", allowed: []string{"int", "bool", "string", "[]int", "[]bool", "[]string"}},
+		{name: "arg-first-of-two", stmt: "t2(@@, vs)", allowed: []string{"int"}},
+		{name: "slice-literal-first-element", stmt: "x := []bool{@@, true}\nprint(len(x))", allowed: []string{"bool"}},
 		{name: "define-two-from-call", stmt: "p, q := @@\nprint(p, q)", allowed: []string{"multi"}},
 		{name: "assign-two-from-call", stmt: "vi, vi2 = @@", allowed: []string{"multi"}},
-		{name: "call-statement", stmt: "@@", allowed: []string{"void", "multi", "int"}, onlyCalls: true},
+		{name: "call-statement", stmt: "@@", allowed: []string{"void", "multi", "int", "[]int", "bool", "string"}, onlyCalls: true},
 	}
 }
 
 const c06Prelude = "vi := 1\nvi2 := 2\nvb := true\nvs := \"s\"\nvis := []int{1}\nvbs := []bool{true}\nvss := []string{\"a\"}\n" +
 	"func ti(a int) {\n\tprint(a)\n}\nfunc tb(a bool) {\n\tprint(a)\n}\nfunc ts(a string) {\n\tprint(a)\n}\nfunc tis(a []int) {\n\tprint(len(a))\n}\nfunc t2(a int, b string) {\n\tprint(a, b)\n}\n" +
-	"func fv() {\n\tprint(0)\n}\nfunc fm() (int, int) {\n\treturn 1, 2\n}\nfunc fi() int {\n\treturn 1\n}\n"
+	"func fv() {\n\tprint(0)\n}\nfunc fm() (int, int) {\n\treturn 1, 2\n}\nfunc fi() int {\n\treturn 1\n}\nfunc fs() []int {\n\treturn []int{1}\n}\nfunc fb() bool {\n\treturn true\n}\nfunc ft() string {\n\treturn \"t\"\n}\n"
 
 type typOutcome struct {
+	ExpectAccept bool // probes only
 	Kind    string
 	What    string
 	Class   string
@@ -126,7 +142,7 @@ func CheckC06(r *Run) int {
 	r.Native = nat
 	positions := typedPositions()
 	contexts := []string{"top", "function", "if-body", "for-body", "switch-body"}
-	var bads []typOutcome
+	var bads, probes []typOutcome
 	verdicts, accepted := 0, 0
 	st := r.Eng.Explore(func(c *gosym.Ctx) interface{} {
 		B := c.B
@@ -161,7 +177,7 @@ func CheckC06(r *Run) int {
 			}
 			offeredDesc = "variable of symbolic type"
 		} else {
-			fb := c.B.ByteVar("fn", "vmi")
+			fb := c.B.ByteVar("fn", "vmisbt")
 			c.S.Declare(fb)
 			offer = gosym.Concat(gosym.Conc("f"), gosym.ByteStr(fb), gosym.Conc("()"))
 			expected = B.False
@@ -173,9 +189,17 @@ func CheckC06(r *Run) int {
 					expected = B.Or(expected, B.Eq(fb, B.BV('m', 8)))
 				case "int":
 					expected = B.Or(expected, B.Eq(fb, B.BV('i', 8)))
+				case "[]int":
+					if !p.varOnly {
+						expected = B.Or(expected, B.Eq(fb, B.BV('s', 8)))
+					}
+				case "bool":
+					expected = B.Or(expected, B.Eq(fb, B.BV('b', 8)))
+				case "string":
+					expected = B.Or(expected, B.Eq(fb, B.BV('t', 8)))
 				}
 			}
-			offeredDesc = "call f?() with symbolic function letter"
+			offeredDesc = "call f?() with symbolic function letter (void, two results, int, []int, bool, string)"
 		}
 		stmt := gosym.Concat(splitHole(p.stmt, offer)...)
 		var body gosym.Str
@@ -193,6 +217,10 @@ func CheckC06(r *Run) int {
 		}
 		src := gosym.Concat(gosym.Conc(c06Prelude), decl, body)
 		c.FS.AddFile("/work/main.tsh", src)
+		c.ProbeFn = func(m map[string]uint64) interface{} {
+			return typOutcome{Kind: "probe", Pos: p.name, Ctx: ctx, Src: ModelStr(src, m), ExpectAccept: sym.Eval(expected, m) == 1,
+				Offered: strings.TrimSpace(ModelStr(gosym.Concat(typeField, offer), m))}
+		}
 		var errs [2]bool
 		for ti, target := range []string{"bash", "batch"} {
 			var script gosym.Str
@@ -228,6 +256,9 @@ func CheckC06(r *Run) int {
 		}
 		return typOutcome{Kind: "accepted"}
 	}, gosym.ExploreOpts{Workers: r.Workers, TimeoutMS: 10000, Budget: gosym.Budget{MaxPaths: 500000, Steps: 30_000_000}, OnPath: func(pr *gosym.PathResult) {
+		if pb, ok := pr.Probe.(typOutcome); ok && len(probes) < 400 {
+			probes = append(probes, pb)
+		}
 		o, ok := pr.Ret.(typOutcome)
 		if !ok {
 			return
@@ -241,6 +272,26 @@ func CheckC06(r *Run) int {
 		}
 	}})
 	r.Absorb("H_C06_position_table", st, fmt.Sprintf("%d typed positions x %d contexts x offered expression: a variable whose declared type is 8 symbolic bytes (constrained to the 8 type spellings) or a call f?() with a symbolic function letter (void / two results / int)", len(positions), len(contexts)))
+	// paths the engine could not interpret: one concrete instance each is decided on the native build
+	sort.SliceStable(probes, func(i, j int) bool { return probes[i].Pos+probes[i].Src < probes[j].Pos+probes[j].Src })
+	for i, pb := range probes {
+		if i >= 120 {
+			break
+		}
+		res, err := nat.RunDrv([]DrvReq{{Op: "transpile", Files: map[string]string{"main.tsh": pb.Src}, Main: "main.tsh", Target: "bash"}}, 30*time.Second)
+		if err != nil {
+			continue
+		}
+		acc := !res[0].HasErr && res[0].Panic == ""
+		if res[0].Panic != "" {
+			pb.What = "panic: " + res[0].Panic
+			bads = append(bads, pb)
+		} else if acc != pb.ExpectAccept {
+			pb.What = map[bool]string{true: "ill-typed program accepted", false: "well-typed program rejected"}[acc]
+			bads = append(bads, pb)
+		}
+	}
+	r.Cov("paths_decided_by_native_probe_only", min(len(probes), 120))
 	seen := map[string]bool{}
 	validated := 0
 	for _, b := range bads {
